@@ -1,7 +1,7 @@
 """C09 - proposal pools follow the prior inside the contour and never leave
 the prior.
 
-Three parts.
+Four parts.
  A structural : passive monitor on every pool population / draw in real runs
                 of both samplers (vf.monitors.install_pool).
  B distribution: vf.c09_dist - pools of directly driven proposals compared
@@ -9,6 +9,9 @@ Three parts.
                 same contour (two-sample chi-square / KS, p < 1e-9).
  C support     : the call log of the model in every real run - each argument
                 of log_likelihood is in bounds with a finite log-prior.
+ D marginalised: vf.c09_marg - AugmentedFlowProposal(marginalise_augment):
+                the Monte-Carlo density a candidate is weighted with is an
+                estimate for that candidate (exact rank bound).
 """
 from hypothesis import strategies as st
 
@@ -27,8 +30,11 @@ RULE = (
     "brute-force prior-in-contour samples of equal size (12000). "
     "Non-trivial: a run with at least one pool drawn from a trained flow "
     "with population acceptance < 1, or a distribution cell with a trained "
-    "flow; distinct by configuration hash."
+    "flow; distinct by configuration hash. "
 )
+from .. import c09_marg as _m  # noqa: E402
+
+RULE = RULE + _m.RULE_C.replace("(C)", "(D)")
 ASSUMPTIONS = [
     "exact model arithmetic: pool logP/logL must equal the model bit for bit",
     "latent-contour membership is checked only for deterministic "
@@ -37,6 +43,7 @@ ASSUMPTIONS = [
     "statistical part: fixed sample size 12000 vs 12000 and a Bonferroni-"
     "corrected threshold p < 1e-9; smaller deviations pass",
 ]
+ASSUMPTIONS += _m.ASSUMPTIONS_C
 MONITORS = ["pool"]
 
 
@@ -87,13 +94,16 @@ def run(ctx):
     cases = configs.collect(strategy(ctx), ctx.seed, n)
     known = runcheck.known_cases("C09")
     cases += [c for c in known if c.get("kind") not in (
-        "direct-history", "dist-cell")]
+        "direct-history", "dist-cell", "marg-cell")]
     out = runcheck.execute_cases(ctx, "c09", cases, make_history, judge)
     from .. import c09_direct
 
     out.merge(c09_direct.run_cells(ctx))
+    from .. import c09_marg
+
+    out.merge(c09_marg.run_cells(ctx))
     for c in known:
-        if c.get("kind") in ("direct-history", "dist-cell"):
+        if c.get("kind") in ("direct-history", "dist-cell", "marg-cell"):
             c = {k: v for k, v in c.items() if k != "labels"}
             for v in replay(ctx, c):
                 out.add(v)
@@ -120,6 +130,9 @@ def health(ctx, stats):
     for k, v in need.items():
         if c.get(k, 0) < v:
             probs.append(f"class {k}: {c.get(k, 0)} < {v}")
+    if c.get("marg:densities-differ", 0) < (6 if ctx.quick else 150):
+        probs.append("marginalised-augment cells with differing densities: "
+                     f"{c.get('marg:densities-differ', 0)}")
     if flow_pools < (4 if ctx.quick else 100):
         probs.append(f"only {flow_pools} histories with flow-based pools")
     try:
@@ -137,6 +150,10 @@ def replay(ctx, case):
         from .. import c09_direct
 
         return c09_direct.replay_cell(ctx, case)
+    if case.get("kind") == "marg-cell":
+        from .. import c09_marg
+
+        return c09_marg.replay_cell(ctx, case)
     if case.get("kind") == "dist-cell":
         from .. import c09_dist
 
